@@ -1,6 +1,8 @@
 import SaModel.Build.Finish
 import SaModel.Lemmas.C18Assembled
 import SaModel.Lemmas.C18ReadAs
+import SaModel.Lemmas.C18EraseAs
+import SaModel.Lemmas.C18ReadNoCtx
 import SaModel.Lemmas.C18Push
 /-
 C18 — every conversion error names the field that caused it (serializer side).
@@ -321,6 +323,75 @@ deserialize_seq …`) -/
 theorem pinned_fsl_blames_ancestor :
     readRecordA AnnFixes.pinned Fixes.all exFslTarget ⟨"c", false, []⟩ exFsl 1 =
       some (.error (.errCtx "Out of bounds access" [("data_type", "Struct(..)"), ("field", "$.c")])) := by decide
+
+/-! ### erasure: the annotated reader model IS the reader model of C02 / C12 / C17, plus annotations
+
+`eraseAnn` (Read/Annot.lean) forgets the annotation of an annotated error and keeps everything else: the value of a
+success, the site of a panic, the message of an error.  For every `AnnFixes` (with or without the two C18 wrappers),
+every `Fixes`, every target, every path and every view — consistent or not — the annotated read erases to the
+un-annotated read of `Read/Reader.lean`, the function `read_typed_decode` (C02), `readAs_no_panic` /
+`readAs_touch_in_range` (C17) and the C12 theorems are about.  (The un-annotated model returns no annotated error —
+`readAs_noctx` — so the right-hand side needs no `eraseAnn`; the form `eraseAnn _ = eraseAnn _` follows.) -/
+
+/-- **eraseAnn_readAnyA**: `deserialize_any`, by recursion over the view -/
+theorem eraseAnn_readAnyA (fx : Fixes) (p : String) (a : Arr) (idx : Nat) :
+    eraseAnn (readAnyA fx p a idx) = readAny fx a idx := by
+  rw [readAnyA_erase fx a p idx, eraseAnn_noctx]
+
+/-- **eraseAnn_readAsA**: the typed reads, by the mutual recursion over the target -/
+theorem eraseAnn_readAsA (af : AnnFixes) (fx : Fixes) (t : Target) (p : String) (a : Arr) (idx : Nat) :
+    eraseAnn (readAsA af fx p t a idx) = readAs fx t a idx := by
+  rw [readAsA_erase af fx t p a idx, eraseAnn_noctx]
+
+theorem eraseAnn_readAsA' (t : Target) (p : String) (a : Arr) (idx : Nat) :
+    eraseAnn (readAsA AnnFixes.all Fixes.all p t a idx) = eraseAnn (readAs Fixes.all t a idx) :=
+  readAsA_erase _ _ t p a idx
+
+/-- **eraseAnn_readRecordA**: the record level (`Deserializer::get(idx)` + `T::deserialize`) -/
+theorem eraseAnn_readRecordA (af : AnnFixes) (fx : Fixes) (t : Target) (fm : FieldMeta) (col : Arr) (idx : Nat) :
+    (readRecordA af fx t fm col idx).map eraseAnn = readRecord fx t fm col idx := by
+  unfold readRecordA readRecord
+  split
+  · rfl
+  · simp only [Option.map_some, eraseAnn_readAsA]
+
+/-- transfer, successes: the annotated read returns `v` exactly when the un-annotated one does -/
+theorem readAsA_ok_iff (af : AnnFixes) (fx : Fixes) (t : Target) (p : String) (a : Arr) (idx : Nat) (v : DVal) :
+    readAsA af fx p t a idx = .ok v ↔ readAs fx t a idx = .ok v := by
+  rw [← eraseAnn_readAsA af fx t p a idx]
+  cases readAsA af fx p t a idx with
+  | ok w => simp [eraseAnn]
+  | error e => cases e <;> simp [eraseAnn]
+
+/-- transfer, panics: same panic sites -/
+theorem readAsA_panic_iff (af : AnnFixes) (fx : Fixes) (t : Target) (p : String) (a : Arr) (idx : Nat) (s : String) :
+    readAsA af fx p t a idx = .error (.panic s) ↔ readAs fx t a idx = .error (.panic s) := by
+  rw [← eraseAnn_readAsA af fx t p a idx]
+  cases readAsA af fx p t a idx with
+  | ok w => simp [eraseAnn]
+  | error e => cases e <;> simp [eraseAnn]
+
+/-- transfer, errors: with the code that exists, the un-annotated read fails with `msg` exactly when the annotated one
+fails with `msg` and some annotation (which `read_error_position` locates) -/
+theorem readAsA_err_iff (fx : Fixes) (t : Target) (p : String) (a : Arr) (idx : Nat) (msg : String) :
+    (∃ ann, readAsA AnnFixes.all fx p t a idx = .error (.errCtx msg ann)) ↔ readAs fx t a idx = .error (.err msg) := by
+  rw [← eraseAnn_readAsA AnnFixes.all fx t p a idx]
+  have hnp := readAsA_not_plain fx t p a idx
+  cases h : readAsA AnnFixes.all fx p t a idx with
+  | ok w => simp [eraseAnn]
+  | error e =>
+    cases e with
+    | err m => exact absurd h (hnp m)
+    | panic s => simp [eraseAnn]
+    | errCtx m ann => simp [eraseAnn]
+
+/-- non-vacuity: a read that fails two readers below the root — the annotated model names `$.c.x`, the un-annotated
+one returns the same message -/
+example :
+    readRecordA AnnFixes.all Fixes.all exFslTarget ⟨"c", false, []⟩ exFsl 1 =
+      some (.error (.errCtx "Out of bounds access" [("data_type", "FixedSizeList(..)"), ("field", "$.c.x")])) ∧
+    readRecord Fixes.all exFslTarget ⟨"c", false, []⟩ exFsl 1 = some (.error (.err "Out of bounds access")) := by
+  decide
 
 /-- non-vacuity of `reader_paths_assembled` / `read_error_position`: a map column below a list -/
 example :
